@@ -594,13 +594,14 @@ struct Contracts {
     text: HashMap<String, String>,                  // marker -> spliced text
     anchors: Vec<(String, bool, String, String)>,    // (fnkey, after?, substr, marker)
     hdr_expect: HashMap<(String, usize), String>,    // (fnkey, loop k) -> fingerprint
+    loops_expect: HashMap<String, usize>,            // fnkey -> number of loops when the contract was written
     sections: Vec<(String, String, String)>,         // (fnkey, kind, file) for the log
 }
 
 fn load_contracts(paths: &[String]) -> Contracts {
     // sections: "#fn NAME" then "#requires", "#ensures", "#spec" (raw, after ensures), "#inv K [@hdr=H]", "#dec K", "#bs K",
     // "#be K", "#pre K", "#post K", "#fs", "#closure K", "#before TEXT", "#after TEXT". Sections with the same key are concatenated.
-    let mut c = Contracts { text: HashMap::new(), anchors: vec![], hdr_expect: HashMap::new(), sections: vec![] };
+    let mut c = Contracts { text: HashMap::new(), anchors: vec![], hdr_expect: HashMap::new(), loops_expect: HashMap::new(), sections: vec![] };
     let mut anc_count = 0usize;
     for path in paths {
         let txt = std::fs::read_to_string(path).unwrap_or_else(|e| { eprintln!("VX-ERROR cannot read contracts {}: {}", path, e); std::process::exit(4) });
@@ -624,6 +625,7 @@ fn load_contracts(paths: &[String]) -> Contracts {
             if let Some(rest) = line.strip_prefix('#').filter(|_| !line.starts_with("#[")) {
                 let parts: Vec<&str> = rest.split_whitespace().collect();
                 if parts.is_empty() { continue; }
+                if parts[0] == "loops" { if let Some(n) = parts.get(1).and_then(|x| x.parse::<usize>().ok()) { c.loops_expect.insert(f.clone(), n); } key = None; continue; }
                 let k = match parts[0] {
                     "requires" => format!("__vx_req_{}", f),
                     "ensures" => format!("__vx_ens_{}", f),
@@ -1037,10 +1039,13 @@ fn process_fn(cx: &mut Ctx, vis: &Visibility, sig: &Signature, block: &Block, in
     for (k, hdr, h, line) in a.headers.iter() {
         cx.loops.push((fkey.clone(), *k, hdr.clone(), h.clone(), *line));
         if let Some(exp) = cx.c.hdr_expect.get(&(fkey.clone(), *k)) {
-            if exp != h { cx.errors.push(format!("ANCHOR-MISMATCH fn {} loop {} expected @hdr={} found {} ({})", fkey, k, exp, h, hdr)); }
+            // a changed header of an existing loop is not an anchor loss: the annotations stay on the loop with that ordinal and
+            // the verifier decides; only a changed number of loops (below) makes the ordinals unreliable
+            if exp != h { cx.p.log.push(format!("HEADER-CHANGED fn {} loop {} expected @hdr={} found {} ({})", fkey, k, exp, h, hdr)); }
         }
     }
     for ((f, k), _) in cx.c.hdr_expect.iter() { if *f == fkey && *k > a.counter { cx.errors.push(format!("ANCHOR-LOST fn {} has no loop {}", f, k)); } }
+    if let Some(n) = cx.c.loops_expect.get(&fkey) { if *n != a.counter { cx.errors.push(format!("ANCHOR-LOST fn {} has {} loops after the rewrite rules, the contract was written for {}", fkey, a.counter, n)); } }
     let fs = Ident::new(&format!("__vx_fs_{}", fkey), proc_macro2::Span::call_site());
     let (ident, generics, inputs) = (&sig.ident, &sig.generics, &sig.inputs);
     let wc = &sig.generics.where_clause;
